@@ -7,6 +7,8 @@ import Chewing.Driver.Util
 * `codec write <name> <copyright> <license> <version> <software> <entry>… => b<file>|err`
   entry = `<key>/<x-phrase>/<freq>/<ts|->`, key = syllable codes joined by `,` or `-` (empty key)
 * `codec lookup b<file> <std|fuzzy> <key>… => [<phrase>,…] …|err`   phrase = `x<hex>/<freq>/<ts|->`
+* `codec lookupn b<file> <std|fuzzy> <n> <key>… => [<phrase>,…] …|err`   `lookup_first_n_phrases(key, n, …)`
+* `codec first b<file> <std|fuzzy> <key>… => <phrase|-> …|err`            `lookup_first_phrase`
 * `codec entries b<file> => ok <key>=<phrase> …|panic|fuel|err`
 * `codec about b<file> => x… x… x… x… x…|err`
 -/
@@ -53,6 +55,23 @@ def codecExpected (fn : String) (args : List String) : Option String :=
       some (match openTrie (unhex file) with
         | none => "err"
         | some t => unwords (keys.map fun k => phrasesS (lookupAll t (keyOf k) st)))
+  | "lookupn", file :: st :: n :: keys =>
+    match strategyOf st with
+    | none => none
+    | some st =>
+      some (match openTrie (unhex file) with
+        | none => "err"
+        | some t => unwords (keys.map fun k => phrasesS (lookupFirstN t (keyOf k) (natOf n) st)))
+  | "first", file :: st :: keys =>
+    match strategyOf st with
+    | none => none
+    | some st =>
+      some (match openTrie (unhex file) with
+        | none => "err"
+        | some t => unwords (keys.map fun k =>
+            match lookupFirst t (keyOf k) st with
+            | some p => phraseS p
+            | none => "-"))
   | "entries", [file] =>
     some (match openTrie (unhex file) with
       | none => "err"
